@@ -181,4 +181,36 @@ theorem accOfCells_lengths (cells : List (Nat × Nat)) :
     obtain ⟨c', _, rfl⟩ := hr
     exact ten3Row_length _ _ _
 
+/-- the parameter loop of `pLSCF_mpe`'s `find_min` branch appends one damping and one `Phi.d`-component shape per
+    entry of `sel_freq1` and leaves the frequencies alone -/
+theorem plscfPick_shape (aa : Mat NR) (col : Nat) :
+    ∀ (us : List Rat) (acc acc' : MpeAcc), plscfPick aa Xi Phi col us acc = .ok acc' →
+      acc'.fn = acc.fn ∧ acc'.xi.length = acc.xi.length + us.length ∧
+      acc'.phi.length = acc.phi.length + us.length ∧ ∀ r ∈ acc'.phi, r ∈ acc.phi ∨ r.length = Phi.d := by
+  intro us
+  induction us with
+  | nil =>
+    intro acc acc' h
+    simp only [plscfPick, pure, Except.pure, Except.ok.injEq] at h
+    subst h
+    exact ⟨rfl, rfl, rfl, fun r hr => Or.inl hr⟩
+  | cons f rest ih =>
+    intro acc acc' h
+    unfold plscfPick at h
+    cases hidx : nanargminAbs (fun r => aa.e r col) aa.r (some f) with
+    | none => rw [hidx] at h; simp [throw, throwThe, MonadExceptOf.throw] at h
+    | some r0 =>
+      rw [hidx] at h
+      obtain ⟨h1, h2, h3, h4⟩ := ih _ acc' h
+      refine ⟨h1, ?_, ?_, ?_⟩
+      · rw [h2]; simp only [List.length_append, List.length_cons, List.length_nil]; omega
+      · rw [h3]; simp only [List.length_append, List.length_cons, List.length_nil]; omega
+      · intro r hr
+        rcases h4 r hr with hm | hl
+        · simp only [List.mem_append, List.mem_singleton] at hm
+          rcases hm with hm | rfl
+          · exact Or.inl hm
+          · exact Or.inr (ten3Row_length _ _ _)
+        · exact Or.inr hl
+
 end PV
